@@ -101,6 +101,13 @@ type Session struct {
 	rcptArgs map[string][]string
 
 	log log.Logger
+
+	// Set by Logout (under msgLock). go-smtp does not synchronize
+	// Server.Close, which logs every session out from the caller's goroutine,
+	// with the command a connection is about to run: without the flag that
+	// command would open a delivery and take limit permits nobody is left
+	// to release.
+	loggedOut bool
 }
 
 func (s *Session) AuthMechanisms() []string {
@@ -337,6 +344,10 @@ func (s *Session) Mail(from string, opts *smtp.MailOptions) error {
 	s.msgLock.Lock()
 	defer s.msgLock.Unlock()
 
+	if s.loggedOut {
+		return errLoggedOut
+	}
+
 	if s.delivery != nil {
 		// go-smtp does not reject MAIL inside of an open transaction, and
 		// starting a second delivery here would leak the first one together
@@ -409,6 +420,10 @@ func (s *Session) Rcpt(to string, opts *smtp.RcptOptions) error {
 	s.msgLock.Lock()
 	defer s.msgLock.Unlock()
 
+	if s.loggedOut {
+		return errLoggedOut
+	}
+
 	// deferServerReject = true and this is the first RCPT TO command.
 	if s.delivery == nil {
 		// If we already attempted to initialize the delivery -
@@ -476,9 +491,16 @@ func (s *Session) rcpt(ctx context.Context, to string, opts *smtp.RcptOptions) e
 	return nil
 }
 
+var errLoggedOut = &smtp.SMTPError{
+	Code:         421,
+	EnhancedCode: smtp.EnhancedCode{4, 4, 2},
+	Message:      "Connection is closing",
+}
+
 func (s *Session) Logout() error {
 	s.msgLock.Lock()
 	defer s.msgLock.Unlock()
+	s.loggedOut = true
 
 	if s.delivery != nil {
 		s.abort(s.msgCtx)
@@ -530,6 +552,10 @@ func (s *Session) prepareBody(r io.Reader) (textproto.Header, buffer.Buffer, err
 func (s *Session) Data(r io.Reader) error {
 	s.msgLock.Lock()
 	defer s.msgLock.Unlock()
+
+	if s.loggedOut {
+		return errLoggedOut
+	}
 
 	bodyCtx, bodyTask := trace.NewTask(s.msgCtx, "DATA")
 	defer bodyTask.End()
@@ -641,6 +667,10 @@ func (sw *statusWrapper) flush(commitErr error) {
 func (s *Session) LMTPData(r io.Reader, sc smtp.StatusCollector) error {
 	s.msgLock.Lock()
 	defer s.msgLock.Unlock()
+
+	if s.loggedOut {
+		return errLoggedOut
+	}
 
 	bodyCtx, bodyTask := trace.NewTask(s.msgCtx, "DATA")
 	defer bodyTask.End()
